@@ -106,11 +106,12 @@ Definition show_match (prefix text : str) : str :=
          show_nat (length (split_args raw))
   end.
 
-(* prefix, target, K, text1..textK, commands...: K messages from nick to target *)
+(* prefix, target, mode, K, text1..textK, commands...: K messages from nick to target
+   (mode: what the registered functions do meanwhile on the Go side; no effect on outcomes) *)
 Definition seq_source : str := Eval vm_compute in bs "nick".
 Definition show_seq (args : list str) : str :=
   match args with
-  | prefix :: target :: ks :: rest =>
+  | prefix :: target :: _ :: ks :: rest =>
     let h0 := new_handler prefix in
     let k := nat_of_str ks in
     let texts := firstn k rest in
